@@ -1,7 +1,7 @@
 (* C19 runner: decodes a case, runs the calculator model, encodes final state + spec verdicts. Executable only.
    case   = (id cfg alias fs fk dbin dbout aux)
    cfg    = (nc est std varz single dgm xvalid xv_est xv_std xv_varz neigh_only nbneigh matlc
-             mnvar mndim nndim nfex extra_ok iuids locate loctype nbsimu mode n has_in)
+             mnvar mndim nndim nfex extra_ok iuids locate loctype nbsimu mode n has_in rb2 ver)
    nc     = (prefix varname qualifier locator loctype delim clean)
    db     = (grid gdim nuid ((uid name (kind v)) ...) ((uid ...) x 29))   kind 0 Orig, 1 Cst, 2 Written
    result = (ok stage dbin' dbout' (perm_in perm_out temp_in temp_out) wf atomic_in atomic_out inv_in inv_out inv_in' inv_out' wf_success) *)
@@ -45,11 +45,11 @@ Definition zb (z : Z) : bool := negb (z =? 0).
 Definition asCfg (s : sx) : option cfg :=
   match s with
   | L [nc; I est; I std; I varz; I single; I dgm; I xvalid; I xe; I xs; I xv; I no; I nbn; I matlc;
-       I mnvar; I mndim; I nndim; I nfex; I extra; iu; I locate; I loctype; I nbsimu; I mode; I n; I has_in] =>
+       I mnvar; I mndim; I nndim; I nfex; I extra; iu; I locate; I loctype; I nbsimu; I mode; I n; I has_in; I rb2; I ver] =>
       match asNc nc, asListOf asZ iu with
       | Some nc', Some iu' =>
           Some (mkcfg nc' (zb est) (zb std) (zb varz) single (zb dgm) (zb xvalid) xe xs xv (zb no) nbn matlc
-                      mnvar mndim nndim nfex (zb extra) iu' (zb locate) loctype nbsimu mode n (zb has_in))
+                      mnvar mndim nndim nfex (zb extra) iu' (zb locate) loctype nbsimu mode n (zb has_in) (zb rb2) ver)
       | _, _ => None
       end
   | _ => None
